@@ -132,6 +132,27 @@ MET = {
 }
 
 
+class _LanduseView(object):
+    """Presents a land-use file in the terms of the gridded content check:
+    the category axis as LAY, one (implicit) time step."""
+    def __init__(self, f):
+        self._f = f
+        self.variables = {}
+        n = {k: len(f.dimensions[k]) for k in ('LANDUSE', 'ROW', 'COL')}
+        self.dimensions = {'TSTEP': [0], 'LAY': [0] * n['LANDUSE'],
+                           'ROW': [0] * n['ROW'], 'COL': [0] * n['COL']}
+        for k, v in f.variables.items():
+            a = np.asarray(v[...])
+            self.variables[k] = a[None, ...]      # the time axis
+
+
+def luname(cfg):
+    main = ('LUCAT26' if cfg['nz'] == 26 else 'LUCAT11') \
+        if cfg['newstyle'] else 'FLAND'
+    opt = {0: [], 1: ['TOPO'], 2: ['LAI', 'TOPO']}[cfg['nopt']]
+    return [main] + opt
+
+
 def readers(fmt):
     """name -> callable(path, cfg) opening the file with that reader."""
     import importlib
@@ -144,6 +165,10 @@ def readers(fmt):
         from PseudoNetCDF.camxfiles.cloud_rain.Memmap import cloud_rain as cr
         return {'memmap': lambda p, c, **kw: cr(p, rows=c['ny'],
                                                 cols=c['nx'])}
+    if fmt == 'landuse':
+        from PseudoNetCDF.camxfiles.landuse.Memmap import landuse as lu
+        return {'memmap': lambda p, c, **kw: _LanduseView(
+            lu(p, c['ny'], c['nx']))}
     if fmt == 'lateral_boundary':
         from PseudoNetCDF.camxfiles.lateral_boundary.Memmap import \
             lateral_boundary as lb
@@ -161,6 +186,8 @@ def spcnames(cfg):
     if cfg['fmt'] == 'cloud_rain':
         return ['CLOUD', 'RAIN', 'SNOW', 'GRAUPEL', 'COD'] if cfg['nv'] == 5 \
             else ['CLOUD', 'PRECIP', 'COD']
+    if cfg['fmt'] == 'landuse':
+        return luname(cfg)
     if cfg['fmt'] == 'lateral_boundary':
         return ['%s_%s' % (e, ''.join(x).strip()) for x in cfg['spc']
                 for e in ('WEST', 'EAST', 'SOUTH', 'NORTH')]
@@ -209,6 +236,25 @@ def build_met_file(cfg):
     return f
 
 
+def build_landuse_file(cfg):
+    import PseudoNetCDF as pnc
+    nl, ny, nx = cfg['nz'], cfg['ny'], cfg['nx']
+    f = pnc.PseudoNetCDFFile()
+    f.createDimension('LANDUSE', nl)
+    f.createDimension('ROW', ny)
+    f.createDimension('COL', nx)
+    j = np.arange(1, ny + 1)[:, None]
+    i = np.arange(1, nx + 1)[None, :]
+    v = f.createVariable('FLAND', 'f', ('LANDUSE', 'ROW', 'COL'))
+    for k in range(nl):
+        v[k] = (((1 * 5 + 1) * 5 + k + 1) * 5 + j) * 5 + i
+    for o, name in enumerate(luname(cfg)[1:]):
+        w = f.createVariable(name, 'f', ('ROW', 'COL'))
+        w[...] = ((((o + 2) * 5 + 1) * 5 + 0) * 5 + j) * 5 + i
+    f._newstyle = bool(cfg['newstyle'])
+    return f
+
+
 def build_file(cfg):
     """A CAMx-convention PseudoNetCDFFile holding the content of cfg, built
     from the configuration alone (dates by plain calendar arithmetic)."""
@@ -216,6 +262,8 @@ def build_file(cfg):
     import PseudoNetCDF as pnc
     if cfg['fmt'] in MET or cfg['fmt'] == 'cloud_rain':
         return build_met_file(cfg)
+    if cfg['fmt'] == 'landuse':
+        return build_landuse_file(cfg)
     names = spcnames(cfg)
     nt, nz, ny, nx = cfg['nt'], cfg['nz'], cfg['ny'], cfg['nx']
     f = pnc.PseudoNetCDFFile()
@@ -379,7 +427,7 @@ def case_write_walk(arg):
             g = cls(p1, cfg)
             tr['got'] = present(g, names)
             p2 = os.path.join(tmp, 'w2.' + cfg['fmt'])
-            o = pncgen(g, p2, format=cfg['fmt'], verbose=0)
+            o = pncgen(getattr(g, '_f', g), p2, format=cfg['fmt'], verbose=0)
             try:
                 o.close()
             except Exception:
